@@ -23,6 +23,7 @@ from __future__ import annotations
 import copy
 import csv
 import io
+import re
 
 from .. import core
 
@@ -382,8 +383,39 @@ def election_case(ctx, gt, lines, pend, elines, expect):
     return text1
 
 
+_MODEL_NUMBER = re.compile(r"^-?[0-9]+(\.[0-9]+|/[0-9]+)?$")
+_EXPONENT_PREFIX = re.compile(r"^-?[0-9]+([./][0-9]+)?\s*[eE]")
+
+
+def lenient_number_cell(text):
+    """does an edited file hold a cell that gmpy2.mpq reads as a number although it is none of the forms the model reads
+    (TRUSTED of C11)?  mpq accepts an exponent and stops reading there: '11088env. protection' -- what is left of
+    '11088;env. protection' when the edit removes the separator -- is 11088 for the library and not a number for the
+    model.  Such a file is outside the domain of both (not well-formed), and the two error classes are not compared."""
+    from gmpy2 import mpq
+
+    try:
+        rows = list(csv.reader(io.StringIO(text, newline=""), delimiter=";"))
+    except csv.Error:
+        return False
+    for row in rows:
+        for cell in row:
+            s = cell.strip().replace(",", ".")
+            if _EXPONENT_PREFIX.match(s):
+                if not _MODEL_NUMBER.match(s):
+                    try:
+                        mpq(s)
+                        return True
+                    except Exception:  # noqa: BLE001
+                        pass
+    return False
+
+
 def broken_file_case(ctx, text, lines, pend):
     ctx.evaluations += 1
+    if lenient_number_cell(text):
+        ctx.count("csv.c.broken_file", "not compared: a cell that only gmpy2 reads as a number")
+        return
     r = lib_parse(text)
     ctx.count("csv.c.broken_file", "ok" if r[0] == "ok" else "err " + r[1])
     lines.append("pabulibtext T=" + C().esc(text))
